@@ -15,11 +15,12 @@ Model: Model/Adnl.lean (mirror of crypto/ciphers.py, crypto/signature.py, crypto
 -/
 import TonVerif.Proofs.Adnl
 import TonVerif.Proofs.SrcAdnl
+import TonVerif.Proofs.SrcAdnlLoop
 import TonVerif.Generated.MnemonicNew
 
 namespace TonVerif.Properties.C20
 open TonVerif TonVerif.Model.Adnl TonVerif.Proofs.Adnl
-open TonVerif.Generated.AdnlSrc TonVerif.Proofs.SrcAdnl
+open TonVerif.Generated.AdnlSrc TonVerif.Proofs.SrcAdnl TonVerif.Proofs.SrcAdnlLoop
 
 /-- CHANNEL SYMMETRY.  For any two seeds `a`, `b` and ANY two ids (so: `ida > idb`, `ida < idb`, `ida = idb`),
 let `A` be the channel `a` opens towards `b` and `B` the channel `b` opens towards `a`.  For every plaintext `m`:
@@ -283,6 +284,17 @@ theorem c20_src_channel_keys {W : Type} (P : Prims W) (L : ChannelLaws P) (a b i
   ⟨AdnlChannel_init_eq P, Client_init_eq P, Server_init_eq P, get_key_aes_id_eq P,
     _, _, srcChan_eq P a b ida idb, srcChan_eq P b a idb ida, c20_channel_keys P L a b ida idb⟩
 
+/-- CLIENT-SIDE KEY IDS of the regenerated code (ciphers.py `Crypto.get_key_id` / `Crypto.get_aes_key_id`, inherited by `Client`): for
+every client record they never raise, `get_key_id() = H(c6b41348 ‖ ed25519_public)` and `get_aes_key_id() = H(d4adbc2d ‖ ed25519_private)`
+— the latter is `get_key_aes_id` applied to the seed, i.e. the same function the channel uses for its two key ids. -/
+theorem c20_src_client_ids {W : Type} (P : Prims W) (c : Client) :
+    Crypto_get_key_id_obj P c = some (P.H (magicKey ++ c.edPub)) ∧
+    Crypto_get_aes_key_id_obj P c = some (P.H (magicAes ++ c.edPriv)) ∧
+    Crypto_get_aes_key_id_obj P c = get_key_aes_id P c.edPriv :=
+  ⟨get_key_id_eq P c, get_aes_key_id_eq P c, by rw [get_aes_key_id_eq, get_key_aes_id_eq]⟩
+
+example : Crypto_get_aes_key_id_obj toy (Client.new toy [3, 1]) = some (toy.H ([0xd4, 0xad, 0xbc, 0x2d] ++ [3, 1])) := by decide +kernel
+
 /-- CHANNEL SYMMETRY of the regenerated code: the channel objects `A` (opened by `a` towards `b`) and `B` (by `b` towards `a`) are
 built by the regenerated constructors for ANY ids; the regenerated `A.encrypt(m)` returns `B.server_aes_key_id ‖ H(m) ‖ body` with
 `len(body) = len(m)` and the regenerated `B.decrypt(body, H(m))` returns `m`; and the same with `A` and `B` exchanged. -/
@@ -429,5 +441,96 @@ example : (sign_message toy [1, 2] (toy.keypair [9, 9]).2 ()).bind (fun s => ver
 example : mnemonic_is_valid toy (List.replicate 24 0) = some true ∧ mnemonic_is_valid toy (List.replicate 24 5) = some false ∧
     mnemonic_is_valid toy (List.replicate 12 0) = some false ∧ mnemonic_is_valid toy ([] : List Nat) = some false ∧
     is_basic_seed toy [] = none := by decide +kernel
+
+/-! ## The two `while True` functions of keys.py, REGENERATED AS A WHOLE (Generated/AdnlSrc.lean group `keysloop`, translator pyrand.py)
+
+`mnemonic_new P Fl rnd fuel words_count () words k` / `get_secure_random_number P Fl rnd fuel min_v max_v k` are the source functions with
+  * `rnd : Nat → Bytes` = the answers of the successive `os.urandom` calls, an ARBITRARY stream (`k` = index of the next call; the result
+    carries the index after the last call),
+  * `fuel` = the iteration budget of each `while True:` (`none` = the code raises, or it would still be running),
+  * `Fl : Py.FloatIf` = Python's float arithmetic (`math.log2`, `math.pow`, `+ - *`, `int()`), a DECLARED INTERFACE: the theorems below hold
+    for EVERY such interface (the range theorem under one stated sign condition), so they do not depend on IEEE rounding;
+  * `words` = the module's word list, an arbitrary list. -/
+
+/-- GENERATED MNEMONICS ARE VALID (the property's sentence, on the regenerated code).  Whatever the random source answers, whatever the
+float arithmetic computes and for every budget: if `mnemonic_new()` (default 24 words; the password is ignored by the code) returns a
+list, then the regenerated `mnemonic_is_valid` returns `True` on it without raising; the list has 24 entries, all from the word list;
+and the regenerated derivations `mnemonic_to_private_key` / `mnemonic_to_wallet_key` do not raise on it and are pure functions of the
+list (the model's: HMAC → PBKDF2 → first 32 bytes → key pair). -/
+theorem c20_src_mnemonic_new {W : Type} (P : Prims W) (Fl : Py.FloatIf) (rnd : Nat → Bytes) (fuel : Nat) (words : List W) (k : Nat)
+    (arr : List W) (k' : Nat) (h : mnemonic_new P Fl rnd fuel 24 () words k = some (arr, k')) :
+    mnemonic_is_valid P arr = some true ∧ arr.length = 24 ∧ (∀ w ∈ arr, w ∈ words) ∧
+    mnemonic_to_private_key P arr () = some (mnemonicToPrivateKey P arr) ∧
+    mnemonic_to_wallet_key P arr () = some (mnemonicToWalletKey P arr) := by
+  rw [mnemonic_new] at h
+  obtain ⟨hlen, hmem, hbasic⟩ := mnemonic_new_loop_spec P Fl rnd fuel 24 words fuel k arr k' h
+  refine ⟨?_, hlen, hmem, mnemonic_to_private_key_eq P arr, mnemonic_to_wallet_key_eq P arr⟩
+  rw [mnemonic_is_valid]
+  simp only [hlen, if_true]
+  cases he : mnemonic_to_entropy P arr () with
+  | none => simp [he] at hbasic
+  | some e =>
+    simp only [he, Option.bind_some] at hbasic ⊢
+    simp [hbasic]
+
+/-- the same for ANY word count, in the terms of the loop itself: the returned list has exactly `words_count` entries of the word list and
+its entropy passed the regenerated `is_basic_seed`; so for `words_count ≠ 24` the regenerated `mnemonic_is_valid` answers `False` on
+every generated list (the API limitation noted for the hand model, now on the source). -/
+theorem c20_src_mnemonic_new_counts {W : Type} (P : Prims W) (Fl : Py.FloatIf) (rnd : Nat → Bytes) (fuel wc : Nat) (words : List W) (k : Nat)
+    (arr : List W) (k' : Nat) (h : mnemonic_new P Fl rnd fuel wc () words k = some (arr, k')) :
+    arr.length = wc ∧ (∀ w ∈ arr, w ∈ words) ∧
+    ((mnemonic_to_entropy P arr ()).bind fun e => is_basic_seed P e) = some true ∧
+    (wc ≠ 24 → mnemonic_is_valid P arr = some false) := by
+  rw [mnemonic_new] at h
+  obtain ⟨hlen, hmem, hbasic⟩ := mnemonic_new_loop_spec P Fl rnd fuel wc words fuel k arr k' h
+  refine ⟨hlen, hmem, hbasic, fun hne => ?_⟩
+  rw [mnemonic_is_valid]
+  simp [hlen, hne]
+
+/-- THE RESULT IS FIXED BY THE RANDOM STREAM, NOT BY THE BUDGET: once `mnemonic_new` returns with budget `fuel` (i.e. `fuel` reaches the
+first accepted candidate and every random-number retry before it), it returns the same list after the same number of draws with every
+larger budget; hence any two budgets under which it returns agree.  (The Python loop is the limit `fuel → ∞`.) -/
+theorem c20_src_mnemonic_fuel {W : Type} (P : Prims W) (Fl : Py.FloatIf) (rnd : Nat → Bytes) (wc : Nat) (words : List W) (k : Nat) :
+    (∀ fuel fuel' res, fuel ≤ fuel' → mnemonic_new P Fl rnd fuel wc () words k = some res →
+      mnemonic_new P Fl rnd fuel' wc () words k = some res) ∧
+    (∀ f1 f2 r1 r2, mnemonic_new P Fl rnd f1 wc () words k = some r1 → mnemonic_new P Fl rnd f2 wc () words k = some r2 → r1 = r2) := by
+  have mono : ∀ fuel fuel' res, fuel ≤ fuel' → mnemonic_new P Fl rnd fuel wc () words k = some res →
+      mnemonic_new P Fl rnd fuel' wc () words k = some res := by
+    intro fuel fuel' res hle h
+    rw [mnemonic_new] at h ⊢
+    exact mnemonic_new_loop_mono P Fl rnd fuel fuel' hle wc words fuel fuel' k res hle h
+  refine ⟨mono, fun f1 f2 r1 r2 h1 h2 => ?_⟩
+  rcases Nat.le_total f1 f2 with hle | hle
+  · have := mono f1 f2 r1 hle h1; rw [h2] at this; exact (Option.some.inj this).symm
+  · have := mono f2 f1 r2 hle h2; rw [h1] at this; exact Option.some.inj this
+
+/-- RANGE OF `get_secure_random_number(min_v, max_v)` on the regenerated code, for ALL ints `min_v`, `max_v`, every random stream, every
+budget and every float interface with `int(math.pow(2, b) - 1) ≥ 0` for `b ≥ 0` (true of CPython: `math.pow(2, b) ≥ 1.0`): a returned value
+`v` satisfies `min_v ≤ v < max_v`, and at least one `os.urandom` call was made.  NOTHING else about floats is used: the bound comes from
+the integer rejection test `number_val >= range_betw` and from `&` with a non-negative mask being non-negative.  The result does not depend
+on the budget once it is returned.  (Uniformity is NOT claimed: for ranges ≥ 2^49 `math.ceil(math.log2(r))` can round down and for 7-byte
+draws the float sum rounds — the returned value is then still in range, see design/C20.md.) -/
+theorem c20_src_random_range {W : Type} (P : Prims W) (Fl : Py.FloatIf) (rnd : Nat → Bytes)
+    (hmask : ∀ b : Int, 0 ≤ b → 0 ≤ Fl.trunc (Fl.sub (Fl.pow (Fl.ofInt 2) (Fl.ofInt b)) (Fl.ofInt 1))) :
+    (∀ fuel lo hi k v k', get_secure_random_number P Fl rnd fuel lo hi k = some (v, k') → lo ≤ v ∧ v < hi ∧ k < k') ∧
+    (∀ fuel fuel' lo hi k res, fuel ≤ fuel' → get_secure_random_number P Fl rnd fuel lo hi k = some res →
+      get_secure_random_number P Fl rnd fuel' lo hi k = some res) :=
+  ⟨fun fuel lo hi k v k' h => get_secure_random_number_range P Fl rnd fuel lo hi k hmask v k' h,
+   fun fuel fuel' lo hi k res hle h => get_secure_random_number_mono P Fl rnd fuel fuel' hle lo hi k res h⟩
+
+/-- the sign condition of `c20_src_random_range` holds for the exact float reading `Py.intFloat` (the one validated against CPython). -/
+theorem c20_src_random_range_exact {W : Type} (P : Prims W) (rnd : Nat → Bytes) (fuel : Nat) (lo hi : Int) (k : Nat) (v : Int) (k' : Nat)
+    (h : get_secure_random_number P Py.intFloat rnd fuel lo hi k = some (v, k')) : lo ≤ v ∧ v < hi ∧ k < k' :=
+  (c20_src_random_range P Py.intFloat rnd intFloat_mask_nonneg).1 fuel lo hi k v k' h
+
+/-- non-vacuity: the regenerated `mnemonic_new` run on the toy primitives and the exact float reading over the stream `toyRnd` (first
+candidate 24 × word 5: not a basic seed, rejected; second candidate 24 × word 0: accepted after 48 draws) — with budget 2 and budget 9;
+budget 1 is used up; the regenerated random number: range 5 rejects the draws 7 and 5 and returns `10 + 4`; an empty range raises. -/
+example : mnemonic_new toy Py.intFloat toyRnd 2 24 () (List.range 2048) 0 = some (List.replicate 24 0, 48) ∧
+    mnemonic_new toy Py.intFloat toyRnd 9 24 () (List.range 2048) 0 = some (List.replicate 24 0, 48) ∧
+    mnemonic_new toy Py.intFloat toyRnd 1 24 () (List.range 2048) 0 = none ∧
+    get_secure_random_number toy Py.intFloat (fun k => [[7], [5], [12], [1]].getD k []) 3 10 15 0 = some (14, 3) ∧
+    get_secure_random_number toy Py.intFloat (fun _ => [1]) 3 10 10 0 = none := by
+  decide +kernel
 
 end TonVerif.Properties.C20
